@@ -7,6 +7,7 @@ import OAP.Model.Client.Quartet
 import OAP.Gen.Facts
 import OAP.Model.Client.Recovery
 import OAP.Model.Client.ConnThreads
+import OAP.Model.Client.LockWait
 namespace OAP.C14
 open OAP
 
@@ -84,5 +85,131 @@ theorem close_conn_never_blocks (cfg : ConnThreads.Cfg) (acts : List ConnThreads
       ConnThreads.step cfg s (.xCloseTest i) =
         some { s with ext := ConnThreads.upd s.ext i .idle, closeReturns := s.closeReturns + 1 }) :=
   ⟨ConnThreads.close_call_can_step cfg acts s h i hx, ConnThreads.close_after_signal_returns cfg s i⟩
+
+/-! ### view LockWait: Close returns promptly — with requests in flight, in the middle of (failing) reconnect attempts
+
+The client RWMutex with Go's writer preference (a goroutine blocked in `Lock()` blocks every new `RLock()`), `Do` calls
+that hold the read lock while they wait, the loss notifiers, the retry goroutine with its auth request, any number of Close
+callers.  Timers (request deadline, auth timeout, the 1 s sleep) and the environment (new calls, new losses, the peer's
+answers) are separate actions; the theorems say what happens without them. -/
+
+/-- the invariant of the view in every reachable state: mutual exclusion, `readers` = number of goroutines inside a
+read-locked section, `pendW` = number of goroutines blocked in `Lock()`, the write holder is the goroutine whose pc is
+inside a write-locked section, at most one notifier owns a recovery, at most one retry goroutine, the flags
+`doReconnectting` / `recovering` are the owner's, the close signal is "the Once is past its first statement" -/
+theorem lockwait_invariant (acts : List LockWait.Act) (s : LockWait.St) (h : LockWait.run LockWait.init acts = some s) :
+    LockWait.WInv s := LockWait.inv_reach acts s h
+
+/-- CLOSE RETURNS PROMPTLY.  From any reachable state in which Close has set its signal — whatever is in flight: requests
+waiting for answers, a notifier queued in `Lock()`, a recovery between any two statements, its auth request waiting, the
+retry loop asleep after a failed attempt — and along EVERY schedule from there (any interleaving, with new `Do` / `Close`
+calls, new losses and answers of the peer arriving at any time):
+(1) the signal stays set;
+(2) the goroutine steps of the schedule are bounded by `mu s` plus a constant per new call (5 / 7 / 16): nothing spins;
+(3) unless every Close caller has returned, some goroutine step is enabled that is not a timer (no request deadline, no
+    auth timeout, not the 1 s sleep) and not an action of the environment (not the peer's answer);
+(4) a schedule that cannot be extended by such a step ends with every Close caller returned;
+(5) a schedule that has used up the budget ends with every Close caller and every `Do` caller returned.
+The only step in (3) that is not the client's own is the return of a dialer entered before the signal
+(`close_waits_for_dial_in_progress`). -/
+theorem close_returns_promptly (acts0 acts : List LockWait.Act) (s s' : LockWait.St)
+    (h0 : LockWait.run LockWait.init acts0 = some s) (hc : s.closeSig = true) (h : LockWait.run s acts = some s') :
+    s'.closeSig = true ∧
+    LockWait.mu s' + LockWait.threadSteps acts ≤ LockWait.mu s + LockWait.freshBudget acts ∧
+    (¬ LockWait.closersDone s' → ∃ a, LockWait.isProg a = true ∧ LockWait.enabled s' a) ∧
+    ((∀ a, LockWait.isProg a = true → LockWait.step s' a = none) → LockWait.closersDone s') ∧
+    (LockWait.mu s + LockWait.freshBudget acts ≤ LockWait.threadSteps acts →
+      LockWait.closersDone s' ∧ LockWait.doersDone s') :=
+  LockWait.close_prompt acts0 acts s s' h0 hc h
+
+/-- no dead end: from the moment somebody has won the Once of `Close`, a schedule of goroutine steps alone — no timer, no
+help from the peer, no new call — ends with every Close caller returned -/
+theorem close_leads_to_return (acts0 : List LockWait.Act) (s : LockWait.St)
+    (h0 : LockWait.run LockWait.init acts0 = some s) (hh : s.once ≠ .free) :
+    ∃ acts s', (∀ a ∈ acts, LockWait.isProg a = true) ∧ LockWait.run s acts = some s' ∧ LockWait.closersDone s' :=
+  LockWait.close_leads_to_return acts0 s h0 hh
+
+/-- the lock drains: after the signal, whenever `RLock` is refused (a writer holds the lock or is pending) some goroutine
+has an enabled step that is neither a timer nor the environment's — the write holder's next statement, or a pending
+writer taking the free lock, or a read holder on its way out (a waiting `Do` has its `case <-c.closeCh`) -/
+theorem lock_drains_after_close (acts0 : List LockWait.Act) (s : LockWait.St)
+    (h0 : LockWait.run LockWait.init acts0 = some s) (hc : s.closeSig = true)
+    (hb : s.writer ≠ none ∨ s.pendW ≠ 0) : ∃ a, LockWait.isProg a = true ∧ LockWait.enabled s a :=
+  LockWait.lock_progress s (LockWait.inv_reach acts0 s h0) hc hb
+
+/-- the RWMutex as modelled is exclusive: with a write holder nobody is inside a read-locked section; the holder is the
+goroutine whose pc is inside a write-locked section; at most one goroutine is -/
+theorem lock_exclusive (acts : List LockWait.Act) (s : LockWait.St) (h : LockWait.run LockWait.init acts = some s) :
+    (s.writer ≠ none → s.readers = 0 ∧ (∀ i, LockWait.rdD (s.dpc i) = 0) ∧ LockWait.rdOnce s.once = 0 ∧
+      LockWait.rdR s.rc = 0) ∧
+    (∀ t, s.writer = some (.n t) ↔ LockWait.nHoldsW (s.npc t) = true) ∧
+    (s.writer = some .r ↔ LockWait.rHoldsW s.rc = true) ∧
+    (∀ t u, LockWait.nHoldsW (s.npc t) = true → LockWait.nHoldsW (s.npc u) = true → t = u) ∧
+    (∀ t, LockWait.nHoldsW (s.npc t) = true → LockWait.rHoldsW s.rc = false) :=
+  LockWait.mutex_exclusive acts s h
+
+/-- one loss, one recovery, one retry goroutine — also with the pending-writer semantics -/
+theorem one_retry_goroutine (acts : List LockWait.Act) (s : LockWait.St) (h : LockWait.run LockWait.init acts = some s) :
+    s.spawnClash = 0 ∧ (∀ t, s.npc t = .spawn → s.rc = .none) ∧
+    (∀ t u, LockWait.owns (s.npc t) = true → LockWait.owns (s.npc u) = true → t = u) ∧
+    (s.rc ≠ .none → s.npc s.own = .waitRC ∧ s.rcOwner = s.own) :=
+  LockWait.one_retry_goroutine acts s h
+
+/-- no goroutine enters the dialer once the signal is set; once Close's body is past its read-locked section (and for ever
+after a Close call has returned) no goroutine is inside the dialer and no conn has been installed in such a state -/
+theorem no_dial_after_close (acts : List LockWait.Act) (s : LockWait.St) (h : LockWait.run LockWait.init acts = some s) :
+    s.lateInstalls = 0 ∧ (LockWait.pastR s.once = true → s.rc ≠ .dDialing) ∧
+    (∀ a s', s.closeSig = true → LockWait.step s a = some s' → s'.rc = .dDialing → s.rc = .dDialing) :=
+  have p := LockWait.no_dial_after_close_signal_installs_partial acts s h
+  ⟨p.1, p.2, fun a s' hc hs hd => LockWait.no_dial_entered_after_signal s s' a hc hs hd⟩
+
+/-! the two guards are necessary (decided concrete schedules of the variant + an invariance argument over all continuations) -/
+
+/-- (a) `recv` without `case <-c.closeCh` (before the repair of D24): a `Do` waits, its conn is lost, a notifier queues in
+`Lock()`, the user calls Close — Close's `RLock` is refused in every continuation without a request deadline and without
+an answer from the peer: Close waits for a request timeout -/
+theorem no_close_case_blocks_close :
+    ∃ s, LockWait.runV .noCloseCase LockWait.init LockWait.demoA = some s ∧
+      s.closeSig = true ∧ s.once = .held (.x 0) .wantR ∧ s.cpc 0 = .body ∧ s.dpc 0 = .wait ∧
+      ∀ acts s', (∀ a ∈ acts, LockWait.quietA a = true) → LockWait.runV .noCloseCase s acts = some s' →
+        s'.closeSig = true ∧ s'.once = .held (.x 0) .wantR ∧ s'.cpc 0 = .body ∧ s'.dpc 0 = .wait ∧
+        LockWait.stepV .noCloseCase s' .body = none ∧ LockWait.stepV .noCloseCase s' (.c 0) = none :=
+  LockWait.no_close_case_blocks_close
+
+/-- (b) `reconnecting` without the atomic `recovering` test, and `recv` without the closeCh case (the tree in which D20 was
+found): a recovery runs, its auth request waits, a second notifier of the same loss queues in `Lock()`, the user calls
+Close — Close's `RLock` and every `Do`'s `RLock` are refused in every continuation without the auth timeout and without an
+answer to the auth request: Close waits for the auth deadline -/
+theorem no_fast_path_blocks_close :
+    ∃ s, LockWait.runV .neither LockWait.init LockWait.demoB = some s ∧
+      s.closeSig = true ∧ s.once = .held (.x 0) .wantR ∧ s.cpc 0 = .body ∧ s.rc = .aWait false ∧
+      ∀ acts s', (∀ a ∈ acts, LockWait.quietB a = true) → LockWait.runV .neither s acts = some s' →
+        s'.closeSig = true ∧ s'.once = .held (.x 0) .wantR ∧ s'.cpc 0 = .body ∧ s'.rc = .aWait false ∧
+        LockWait.stepV .neither s' .body = none ∧
+        (∀ i, s'.dpc i = .wantR → LockWait.stepV .neither s' (.d i) = none) :=
+  LockWait.no_fast_path_blocks_close
+
+/-- FINDING (the code as it is): Close called while a reconnect attempt is inside the dialer waits until the dialer
+returns — `dial` holds the write lock across the network dial — i.e. up to `DialOptions.Timeout` with an unreachable peer.
+Close's `RLock` is refused in every continuation that does not contain the dial's return. -/
+theorem close_waits_for_dial_in_progress :
+    ∃ s, LockWait.run LockWait.init LockWait.demoDial = some s ∧ s.closeSig = true ∧
+      s.once = .held (.x 0) .wantR ∧ s.rc = .dDialing ∧
+      ∀ acts s', (∀ a ∈ acts, LockWait.notDialReturn a = true) → LockWait.run s acts = some s' →
+        s'.once = .held (.x 0) .wantR ∧ s'.rc = .dDialing ∧ LockWait.step s' .body = none :=
+  LockWait.close_waits_for_dial
+
+/-- T2 for view LockWait: the guards its theorems rest on, read off the regenerated operation sequences — `Do` takes the read
+lock first and releases it by `defer` (so it is held while `recv` waits); `recv`'s select has the close-signal case (D24) and
+looks into the slot once more; `reconnecting` tests `closed()` and the atomic `recovering` flag BEFORE it asks for the write lock
+(D20); `Close` closes the signal BEFORE it takes the read lock; `dial` holds the write lock across the dialer (the one wait
+`close_waits_for_dial_in_progress` describes) and tests `closed()` under it. The full sequences are pinned by `source_order`
+here and in C05/C07/C08. -/
+theorem lockwait_source :
+    Gen.seq_client_Do.take 2 = ["c.RLock", "defer:c.RUnlock"] ∧ "c.recv" ∈ Gen.seq_client_Do ∧
+    Gen.seq_client_recv = ["select", "recv:w.ch", "recv:ctx.Done()", "recv:c.closeCh", "select", "recv:w.ch", "default"] ∧
+    Gen.seq_client_reconnecting.take 3 = ["c.closed", "atomic.LoadInt32:&c.recovering", "c.Lock"] ∧
+    Gen.seq_client_Close.take 3 = ["c.closeOnce.Do", "close:c.closeCh", "c.RLock"] ∧
+    Gen.seq_client_dial.take 4 = ["c.Lock", "defer:c.Unlock", "c.closed", "dialer"] := by decide
 
 end OAP.C14
